@@ -132,7 +132,8 @@ class Out:
         for t, m in self.chunks:
             nl = t.count("\n")
             if m is not None:
-                lines_meta.append((line, line + nl, m))
+                # the lines the chunk really occupies (trailing newlines belong to nobody: the next chunk starts there)
+                lines_meta.append((line, line + t.rstrip("\n").count("\n"), m))
             parts.append(t); line += nl
         return "".join(parts), lines_meta
 
@@ -449,7 +450,7 @@ class FileEmitter:
         raw = txt
         txt = self.rule_item_text(it, txt)
         if txt is None: return
-        self.out.add("".join(a + "\n" for a in attrs) + txt + "\n\n", {"file": self.rel, "part": "item", "kind": it.kind, "use_norm": R.norm(raw) if it.kind == "use" else None})
+        self.out.add("".join(a + "\n" for a in attrs) + txt + "\n\n", {"file": self.rel, "part": "item", "kind": it.kind, "name": it.name, "use_norm": R.norm(raw) if it.kind == "use" else None})
 
     # ---- item-level rules -------------------------------------------------------------
     def rule_header(self, it, hdr):
@@ -506,6 +507,14 @@ class FileEmitter:
         if it.kind == "const":
             new = re.sub(r"^pub\s*\((self|crate)\)\s*const", "pub const", txt)
             if new != txt: ctx.log("R-pubitems", self.rel, it.line, txt[:40], new[:40])
+            # the elided lifetime of a reference in a const's type is 'static in Rust; Verus wants it written
+            m = re.match(r"((?:pub\s+)?const\s+\w+\s*:)([^=]*)(=.*)$", new, re.S)
+            if m and re.search(r"&(?!')", m.group(2)):
+                new2 = m.group(1) + re.sub(r"&(?!')", "&'static ", m.group(2)) + m.group(3)
+                ctx.log("R-constlife", self.rel, it.line, new[:60], new2[:60]); new = new2
+            if (self.rel, it.name) in getattr(ctx, "ext_consts", ()):
+                # the initialiser is outside Verus (found by the runner's front-end isolation): keep the item, value unknown to the verifier
+                ctx.log("R-extconst", self.rel, it.line, new[:60], "#[verifier::external_body] " + new[:40]); new = "#[verifier::external_body] " + new
             return new
         if it.kind == "trait":
             return txt
@@ -627,6 +636,10 @@ class FileEmitter:
         ik = impl_key(parent) if parent is not None and parent.kind in ("impl", "trait") else "-"
         key = (self.rel, ik, it.name)
         spec = ctx.specs.fns.get(key)
+        if spec is None and key in getattr(ctx, "renames", {}):
+            # R-renamed: the runner found that a contracted function was renamed (same impl, same signature, old name gone): the contract follows it
+            spec = ctx.specs.fns.get((self.rel, ik, ctx.renames[key]))
+            if spec: ctx.log("R-renamed", self.rel, it.line, ctx.renames[key], it.name)
         if spec: spec.used = True
         if ("%s|%s::%s" % key) in ctx.drop_contract_fns: spec = None   # contract no longer fits the (changed) signature
         sig = R.text(it.sig).replace("crate::core", "crate::rp_core")
@@ -688,6 +701,7 @@ class FileEmitter:
         ctx.fn_index.append({"file": self.rel, "impl": ik, "fn": it.name, "line": it.line, "external_body": bool(ext or self.stub), "stubbed": bool(stub_this and not ext),
                              "body_hash": bh, "hints_dropped": list(self.dropped_hints) if (body is not None and not ext and not stub_this) else [],
                              "body_text": re.sub(r"\s+", " ", body or "")[:6000],
+                             "sig_norm": R.norm(re.sub(r"\bfn\s+%s\b" % re.escape(it.name), "fn _", R.text(it.sig), count=1)),
                              "contract": bool(spec), "safety": spec.safety if spec else [],
                              "labels": [l for l, _ in (spec.requires + spec.ensures)] if spec else [],
                              "ens_labels": [l for l, _ in spec.ensures] if spec else [],
@@ -883,7 +897,7 @@ def emit_module(ctx, out, rel, modname, include, stubset, depth=0):
     if modname is not None:
         out.add("} // mod %s\n" % modname)
 
-def build(include=None, stubset=(), spec_paths=None, shim_paths=None, out_path=None, stub_fns=(), drop_uses=(), drop_contract_fns=()):
+def build(include=None, stubset=(), spec_paths=None, shim_paths=None, out_path=None, stub_fns=(), drop_uses=(), drop_contract_fns=(), ext_consts=(), renames=None):
     specs = Specs()
     for p in (spec_paths or []):
         parse_vspec(p, specs)
@@ -891,8 +905,8 @@ def build(include=None, stubset=(), spec_paths=None, shim_paths=None, out_path=N
     ctx_theorems = []
     ctx.theorems = ctx_theorems
     ctx.files = []; ctx.excluded = []
-    ctx.stub_fns = set(stub_fns); ctx.drop_uses = set(drop_uses); ctx.drop_contract_fns = set(drop_contract_fns)
-    ctx.used_companions = set(); ctx.used_implitems = set()
+    ctx.stub_fns = set(stub_fns); ctx.drop_uses = set(drop_uses); ctx.drop_contract_fns = set(drop_contract_fns); ctx.ext_consts = set(ext_consts); ctx.renames = dict(renames or {})
+    ctx.used_companions = set(); ctx.used_implitems = set(); ctx.lost_contracts = []
     out = Out()
     out.add("#![feature(allocator_api)]\n#![feature(sized_hierarchy)]\n#![allow(unused)]\n#![allow(unused_imports, dead_code, non_camel_case_types, unused_parens, unused_braces)]\nuse vstd::prelude::*;\n")
     for p in (shim_paths or []):
@@ -951,13 +965,16 @@ def build(include=None, stubset=(), spec_paths=None, shim_paths=None, out_path=N
     out.add("fn main() {}\n")
     for k, fs in specs.fns.items():
         if not fs.used and inc(k[0]):
-            raise ExtractError("lost anchor: contract %s:%d for %s has no matching function" % (fs.src, fs.line, k))
+            # the function a contract was written for no longer exists (removed, renamed or inlined): its obligations are gone with it;
+            # whoever did its work is checked against the contracts of the callers.  Reported by the runner, never silently.
+            labs = sorted(set([l for l, _ in fs.requires + fs.ensures if l] + ["safety=" + p for p in fs.safety]))
+            ctx.lost_contracts.append({"fn": "%s|%s::%s" % k, "contract": "%s:%d" % (os.path.basename(fs.src), fs.line), "labels": labs})
     text, lines_meta = out.render()
     if out_path:
         os.makedirs(os.path.dirname(out_path), exist_ok=True)
         open(out_path, "w").write(text)
         json.dump({"lines": lines_meta, "rewrites": ctx.rewrites, "dropped": ctx.dropped, "fns": ctx.fn_index,
-                   "files": ctx.files, "excluded": ctx.excluded}, open(out_path + ".map.json", "w"), indent=0)
+                   "files": ctx.files, "excluded": ctx.excluded, "lost_contracts": ctx.lost_contracts}, open(out_path + ".map.json", "w"), indent=0)
     return text, lines_meta, ctx
 
 if __name__ == "__main__":
